@@ -14,39 +14,98 @@ GLUE = {
 GENERATED_FILES = ["tucan/parser/tucanParser.py", "tucan/parser/tucanLexer.py", "tucan/parser/tucanListener.py"]
 
 
-class _Alpha(ast.NodeTransformer):
-    def __init__(self, local_names):
-        self.map = {}
-        self.local = local_names
-
-    def _n(self, name):
-        if name in self.local:
-            return self.map.setdefault(name, f"v{len(self.map)}")
-        return name
-
-    def visit_Name(self, node):
-        return ast.copy_location(ast.Name(id=self._n(node.id), ctx=node.ctx), node)
-
-    def visit_arg(self, node):
-        return ast.copy_location(ast.arg(arg=self._n(node.arg), annotation=None), node)
-
-
 def fingerprint(fn: ast.FunctionDef) -> str:
+    """name- and order-canonical fingerprint of a straight-line-ish glue function:
+    * docstring, annotations and decorators-free header are ignored (decorators ARE part of the fingerprint);
+    * every local name is replaced by the signature of the expression it is bound to (value numbering), parameters by their
+      position, so renaming locals changes nothing;
+    * statements of a block that share no local name commute: each block is put into the least order (by signature) compatible
+      with the name-sharing dependencies."""
     fn = ast.parse(ast.unparse(fn)).body[0]
     body = fn.body
     if body and isinstance(body[0], ast.Expr) and isinstance(body[0].value, ast.Constant) and isinstance(body[0].value.value, str):
         body = body[1:] or [ast.Pass()]
-    fn.body = body
-    fn.returns = None
-    local = {a.arg for a in fn.args.args}
-    for n in ast.walk(fn):
-        if isinstance(n, ast.Name) and isinstance(n.ctx, ast.Store):
-            local.add(n.id)
-    fn = _Alpha(local).visit(fn)
-    for n in ast.walk(fn):
-        if isinstance(n, ast.AnnAssign):
-            n.annotation = ast.Constant(value=None)
-    return hashlib.sha256(ast.dump(fn, annotate_fields=False, include_attributes=False).encode()).hexdigest()[:24]
+    params = [a.arg for a in fn.args.args]
+    stores: dict[str, list] = {}
+    for n in ast.walk(ast.Module(body=body, type_ignores=[])):
+        if isinstance(n, (ast.Assign, ast.AnnAssign)) and (not isinstance(n, ast.AnnAssign) or n.value is not None):
+            tgts = n.targets if isinstance(n, ast.Assign) else [n.target]
+            for t in tgts:
+                if isinstance(t, ast.Name):
+                    stores.setdefault(t.id, []).append(n.value)
+                else:
+                    for x in ast.walk(t):
+                        if isinstance(x, ast.Name) and isinstance(x.ctx, ast.Store):
+                            stores.setdefault(x.id, []).append(None)
+        elif isinstance(n, ast.Name) and isinstance(n.ctx, ast.Store):
+            stores.setdefault(n.id, stores.get(n.id, []))
+    local = set(params) | set(stores)
+    memo: dict[str, str] = {}
+
+    def sig(name: str, depth=0) -> str:
+        if name in memo:
+            return memo[name]
+        if name in params:
+            r = f"P{params.index(name)}"
+        elif name in stores and len(stores[name]) == 1 and stores[name][0] is not None and depth < 20:
+            memo[name] = "?"  # cycle guard
+            r = "=" + dump(stores[name][0], depth + 1)
+        elif name in local:
+            r = "V:" + name
+        else:
+            r = "G:" + name
+        memo[name] = r
+        return r
+
+    def dump(node, depth=0) -> str:
+        node = ast.parse(ast.unparse(node), mode="eval").body if isinstance(node, ast.expr) else node
+
+        class R(ast.NodeTransformer):
+            def visit_Name(self, n):
+                return ast.Name(id=sig(n.id, depth) if n.id in local else "G:" + n.id, ctx=ast.Load())
+
+            def visit_arg(self, n):
+                return ast.arg(arg=sig(n.arg, depth), annotation=None)
+
+            def visit_AnnAssign(self, n):
+                self.generic_visit(n)
+                return ast.Assign(targets=[n.target], value=n.value) if n.value is not None else ast.Pass()
+        import copy
+        return ast.dump(R().visit(copy.deepcopy(node)), annotate_fields=False, include_attributes=False)
+
+    def locals_of(stmt) -> set:
+        return {n.id for n in ast.walk(stmt) if isinstance(n, ast.Name) and n.id in local} | \
+               {"self." + n.attr for n in ast.walk(stmt) if isinstance(n, ast.Attribute) and isinstance(n.value, ast.Name) and n.value.id == "self"}
+
+    def canon_block(stmts) -> list[str]:
+        keys = []
+        for st in stmts:
+            if isinstance(st, (ast.If, ast.For, ast.While, ast.Try, ast.With)):
+                parts = [type(st).__name__]
+                for f in ("test", "iter", "target"):
+                    if getattr(st, f, None) is not None:
+                        parts.append(dump(getattr(st, f)))
+                for f in ("body", "orelse", "finalbody"):
+                    if getattr(st, f, None):
+                        parts.append("[" + ";".join(canon_block(getattr(st, f))) + "]")
+                for h in getattr(st, "handlers", []):
+                    parts.append("except " + (dump(h.type) if h.type else "") + "[" + ";".join(canon_block(h.body)) + "]")
+                keys.append(("|".join(parts), locals_of(st), False))
+            else:
+                keys.append((dump(st), locals_of(st), isinstance(st, (ast.Assign, ast.AnnAssign, ast.Expr, ast.AugAssign))))
+        out, remaining = [], list(range(len(keys)))
+        while remaining:
+            ready = []
+            for i in remaining:
+                blockers = [j for j in remaining if j < i and (not keys[i][2] or not keys[j][2] or (keys[j][1] & keys[i][1]))]
+                if not blockers:
+                    ready.append(i)
+            pick = min(ready, key=lambda i: keys[i][0])
+            out.append(keys[pick][0])
+            remaining.remove(pick)
+        return out
+    text = "decorators=" + ",".join(ast.dump(d, annotate_fields=False) for d in fn.decorator_list) + ";nparams=%d;" % len(params) + ";".join(canon_block(body))
+    return hashlib.sha256(text.encode()).hexdigest()[:24]
 
 
 def current(repo: str) -> dict:
